@@ -18,5 +18,11 @@ PROPS["C05"] = dict(
              params=dict(actors=[co("a1", ["lock"]), co("a2", ["lock"]), co("a3", ["try", "lock"])], victims=["a2"], workers=8),
              quick=dict(sim=dict(num=400, depth=150), explore=dict(n=300), dfs=dict(max=400, pb=2)),
              thorough=dict(sim=dict(num=6000, depth=150), explore=dict(n=3000), dfs=dict(max=6000, pb=3))),
+        dict(name="mix3", scenario="mutex",
+             tlc=[("spec/l2/MCMutex.tla", "spec/l2/MCMutex_mix.cfg")],
+             sim_spec=("spec/l2/MCMutex.tla", "spec/l2/MCMutex_mix.cfg"),
+             params=dict(actors=[th("a1", ["lock", "lock"]), co("a2", ["lock"]), th("a3", ["try", "lock"])], victims=[], workers=8),
+             quick=dict(sim=dict(num=300, depth=200), explore=dict(n=200), dfs=dict(max=300, pb=2)),
+             thorough=dict(sim=dict(num=4000, depth=200), explore=dict(n=2000), dfs=dict(max=5000, pb=3))),
     ],
 )
